@@ -10,7 +10,7 @@ import vtlib
 from checks import synccheck, datacheck, tracecheck
 
 META = dict(
-    text='TLC exhausts the sleep queue heap (SleepHeap.tla: push / pop_front / pop-from-the-middle with up/down transcribed; 5 elements, keys {1,2,3,never}, every operation sequence up to length 6 (thorough 8) from every key assignment) for heap order, back-index consistency, contents and front-is-minimum, with a broken pop as witness. Recorded executions of the real scheduler (populations of 2-12 sleepers with equal / distinct / zero / infinite deadlines on 1-3 vCPUs, yields, same- and cross-vCPU interrupts each with a unique reason) are validated by TLC against the sleep contract: 0 only after the requested time elapsed on the runtime clock, -1/e only for an interrupt with reason e that is consumed once and was not complete before the sleep began, expiry in deadline order within a vCPU, no thread left in a sleep queue; and every heap array dumped by the guarded hook after each sleep-queue operation must satisfy the heap invariants.',
+    text='TLC exhausts the sleep queue heap (SleepHeap.tla: push / pop_front / pop-from-the-middle with up/down transcribed; 5 elements, keys {1,2,3,never}, every operation sequence up to length 6 (thorough 8) from every key assignment) for heap order, back-index consistency, contents and front-is-minimum, with a broken pop as witness. Recorded executions of the real scheduler (populations of 2-12 sleepers with equal / distinct / zero / infinite deadlines on 1-3 vCPUs, yields, same- and cross-vCPU interrupts each with a unique reason) are validated by TLC against the sleep contract: 0 only after the requested time elapsed on the runtime clock, -1/e only for an interrupt with reason e that is consumed once and was not complete before the sleep began, expiry in deadline order within a vCPU, no thread left in a sleep queue; and every heap array dumped by the guarded hook after each sleep-queue operation must satisfy the heap invariants. Further stages, each judged by TLC: thread_shutdown() (Trace_ShutdownA: sleeps of a marked thread end with -1/EPERM far below the requested time; progress-bounded), expiry under a storm of cross-vCPU wake-ups (rounds past the deadline are counted, not time), and photon::Timer as a client of the wake-up reason mechanism (Timer.tla with a no-stored-reason witness, Trace_TimerA).',
     note='Known finding F2 (a reason stored by thread_interrupt() on a READY thread is returned by that thread\'s next sleep) is recognised by its signature and reported as KNOWN-FINDING; any other stale or unmatched delivery is a violation. Wall-clock lateness is not judged (only order and elapsed >= requested). thread_shutdown(): Trace_ShutdownA (a marked thread\'s sleeps end with -1/EPERM far below the requested time, progress-bounded). photon::Timer (Trace_TimerA) is judged here as a client of the mechanism.',
     technique='TLA+ transcription of the heap checked exhaustively by TLC; TLC trace validation of recorded sleep/interrupt executions against the sleep contract; hook-dumped heap states checked against the model invariants',
     design='3/C04')
